@@ -365,6 +365,7 @@ class CreditControlRequest(CreditControl):
         setattr(self, "proxy_info", [])
         setattr(self, "route_record", [])
         setattr(self, "event_trigger", [])
+        setattr(self, "framed_ipv6_prefix", [])
 
         assign_attr_from_defs(self, self._avps)
         self._avps = []
